@@ -72,8 +72,20 @@ def interactive_char_iterator(handle):
 #
 # Symbol (un)quoting
 #
-_simple_symbol_prog = re.compile(r"^[~!@\$%\^&\*_\-+=<>\.\?\/A-Za-z][~!@\$%\^&\*_\-+=<>\.\?\/A-Za-z0-9]*$")
-_keywords = set(["Int", "Real", "Bool"])
+_simple_symbol_prog = re.compile(r"^[~!@\$%\^&\*_\-+=<>\.\?\/A-Za-z][~!@\$%\^&\*_\-+=<>\.\?\/A-Za-z0-9]*\Z")
+# Names that are not simple symbols of SMT-LIB although they look
+# like one: the reserved words (|let| is a symbol, let is not)
+_keywords = set(["Int", "Real", "Bool",
+                 "!", "_", "as", "BINARY", "DECIMAL", "exists", "HEXADECIMAL",
+                 "forall", "let", "match", "NUMERAL", "par", "STRING",
+                 "assert", "check-sat", "check-sat-assuming", "declare-const",
+                 "declare-datatype", "declare-datatypes", "declare-fun",
+                 "declare-sort", "define-fun", "define-fun-rec",
+                 "define-funs-rec", "define-sort", "echo", "exit",
+                 "get-assertions", "get-assignment", "get-info", "get-model",
+                 "get-option", "get-proof", "get-unsat-assumptions",
+                 "get-unsat-core", "get-value", "pop", "push", "reset",
+                 "reset-assertions", "set-info", "set-logic", "set-option"])
 
 def quote(name: str, style: str='|') -> str:
     if name in _keywords or _simple_symbol_prog.match(name) is None:
